@@ -150,6 +150,8 @@ def run(ctx):
         for bi, t in b.calls():
             if is_trait_call(t, 'State', 'score') and bi in _replica_body:
                 continue        # a score evaluated inside one replica (e.g. logged per replica) is not "the logged final score"
+            if is_trait_call(t, 'State', 'score') and red.get('bb') is not None and not CFG(b).dominates(red['bb'], bi):
+                continue        # ... nor is one evaluated before the replicas run (validating the starting configuration)
             if is_trait_call(t, 'State', 'score'):
                 n_sc += 1
                 oo, _ = through(tr, t['args'][0])
@@ -232,7 +234,8 @@ def role_origin(f, t, body_caller, tt, role, pf):
     idx, path = role
     a = tt['args'][idx]
     if not path or 'l' not in a:
-        return t.origin(a)
+        # (`&args.outfile` handed to a `&Path` parameter goes through Deref / AsRef: payload-preserving)
+        return through(t, a)[0] if 'l' in a else t.origin(a)
     base = f.norm(pf.local_ty(idx + 1)).lstrip('&').strip()
     is_ref = pf.local_ty(idx + 1).startswith('&')
     if base.startswith('mut '):
@@ -362,6 +365,14 @@ def _ordering(ctx):
         why = 'cmp does not return partial_cmp(self, other).unwrap()'
         if len(rets) == 1 and not CFG(cmpb).loops():
             o, st = through(t, {'k': 'copy', 'l': 0, 'p': []})
+            if o['o'] == 'call' and call_matches(o['term'], 'Option::<T>::unwrap_or_else') and len(o['term']['args']) == 2:
+                # `.unwrap_or_else(|| panic!(..))`: unwrap() with a message, if the closure never returns
+                co = t.origin(o['term']['args'][1])
+                cb2 = f.body(co['rv']['closure']) if co['o'] == 'rvalue' and co['rv'].get('agg') == 'closure' else None
+                if cb2 is not None and not any(bb2['term']['t'] == 'return' and bi2 in CFG(cb2).reach and not bb2.get('cleanup')
+                                               for bi2, bb2 in enumerate(cb2.blocks)):
+                    o, st2 = through(t, o['term']['args'][0])
+                    st = st + ['unwrap_or_else(diverging)'] + st2
             if o['o'] == 'call' and call_matches(o['term'], 'PartialOrd>::partial_cmp', 'PartialOrd::partial_cmp'):
                 a0 = t.origin(o['term']['args'][0])
                 a1 = t.origin(o['term']['args'][1])
@@ -422,6 +433,29 @@ def _ordering(ctx):
                   'partial_cmp(a,b) = f64::partial_cmp(score(a), score(b))', why)
         rep.sample('%s: cmp = partial_cmp(self, other).unwrap(); partial_cmp = f64::partial_cmp(score(self)?, score(other)?)' % adt)
     rep.floor('R2', 'state types with a checked ordering', n, 2)
+
+
+def _site_is_new_by_value(f, sxg, o, item, gname):
+    from ..sym import SymEx, SYM, sfield
+    ws = f.one(self_adt='wallpaper::WyckoffSite', name='new')
+    if ws is None:
+        return False
+    sx = SymEx(f)
+    try:
+        outs = sx.run(f.nest_form(ws, yields=False), [SYM(gname)])
+    except Exception:      # noqa: BLE001
+        return False
+    if not outs or sx.aborted:
+        return False
+    oks = []
+    for oo in outs:
+        r = sx.deep(oo.st, oo.ret)
+        if isinstance(r, tuple) and r[0] == 'struct' and r[2] is not None and r[2][0] == 'Ok':
+            oks.append(sfield(r, '0'))
+    if len(oks) != 1:
+        return False
+    got = sxg.deep(o.st, item)
+    return repr(got) == repr(oks[0]) and 'wallpaper::WyckoffSite' in repr(got)[:80]
 
 
 def _is_state_ty(ty):
@@ -650,6 +684,10 @@ def _carried(ctx):
                     'WyckoffSite::new' not in repr(items[0]):
                 ok_sites, why_s = False, 'the occupied site list is not exactly [WyckoffSite::new(group)?] (%d item(s), %d constructor call(s))' % (
                     len(items) if items is not None else -1, len(news))
+                # the constructor may be spelled out (a `TryFrom<&WallpaperGroup>` that `new` also goes through, spliced into
+                # both): the one site then has the VALUE WyckoffSite::new(group) has on its Ok path
+                if items is not None and len(items) == 1 and _site_is_new_by_value(f, sxg, o, items[0], gname):
+                    ok_sites, why_s = True, ''
         rep.check(ok_sites, 'R5', 'from_group-uses-one-group:%s' % adt, where(fg), 'sites = [WyckoffSite::new(group)?] by value',
                   'from_group does not build label and operations from the same group argument: %s' % why_s)
         rep.check(ok_label, 'R5', 'initialise-gets-the-label:%s' % adt, where(fg, ibi),
